@@ -14,6 +14,7 @@
 #include <ompl/base/objectives/MaximizeMinClearanceObjective.h>
 #include <ompl/base/StateValidityChecker.h>
 #include <ompl/base/spaces/RealVectorStateSpace.h>
+#include <ompl/base/spaces/RealVectorStateProjections.h>
 #include <ompl/base/spaces/SE2StateSpace.h>
 #include <ompl/base/spaces/SO2StateSpace.h>
 #include <ompl/base/spaces/DubinsStateSpace.h>
@@ -89,12 +90,13 @@ namespace vw
         bool objective = true;
         std::string objectiveKind = "length";  // length | integral | work | clearance | multi
         double costThreshold = -1;              // < 0: the objective's default threshold
+        std::string proj;                       // "coarse": default projection with 1.7 x 1.3 cells (not aligned with the unit obstacle cells) on x, y
         int starts = 1;                         // 3: an invalid start state first (inside an obstacle cell), the usual one, and a second valid one
         std::string sampler = "lattice";        // lattice (oracle STATE choices) | default (library sampler) | snap (library sampler snapped to a grid: ties)
         std::string json() const
         {
             return "\"planner\":" + vf::jesc(planner) + ",\"map\":" + vf::jesc(map) + ",\"space\":" + vf::jesc(space) + ",\"goal\":" + vf::jesc(goal) + ",\"threshold\":" + vf::jnum(threshold) +
-                   ",\"range\":" + vf::jnum(range) + ",\"resolution\":" + vf::jnum(resolution) + ",\"budget\":" + std::to_string(budget) + ",\"objective\":" + (objective ? "true" : "false") + ",\"objectiveKind\":" + vf::jesc(objectiveKind) + ",\"costThreshold\":" + vf::jnum(costThreshold) + ",\"sampler\":" + vf::jesc(sampler) + (starts != 1 ? ",\"starts\":" + std::to_string(starts) : std::string());
+                   ",\"range\":" + vf::jnum(range) + ",\"resolution\":" + vf::jnum(resolution) + ",\"budget\":" + std::to_string(budget) + ",\"objective\":" + (objective ? "true" : "false") + ",\"objectiveKind\":" + vf::jesc(objectiveKind) + ",\"costThreshold\":" + vf::jnum(costThreshold) + ",\"sampler\":" + vf::jesc(sampler) + (starts != 1 ? ",\"starts\":" + std::to_string(starts) : std::string()) + (proj.empty() ? std::string() : ",\"proj\":" + vf::jesc(proj));
         }
         static Cfg fromJson(const vf::JV &v)
         {
@@ -116,6 +118,8 @@ namespace vw
                 c.sampler = v["sampler"].s;
             if (v.has("starts"))
                 c.starts = v["starts"].i();
+            if (v.has("proj"))
+                c.proj = v["proj"].s;
             return c;
         }
     };
@@ -423,6 +427,12 @@ namespace vw
             else if (c.space == "ReedsShepp")
                 si->setMotionValidator(std::make_shared<ob::ReedsSheppMotionValidator>(si));
             si->setup();
+            if (c.proj == "coarse" && space->getType() == ob::STATE_SPACE_REAL_VECTOR && space->getDimension() == 2)
+            {
+                // grid cells of the projection-based planners that straddle obstacle boundaries: two states of one projection cell
+                // can be separated by an obstacle, so the edges that join them need their own motion check
+                space->registerDefaultProjection(std::make_shared<ob::RealVectorOrthogonalProjectionEvaluator>(space, std::vector<double>{1.7, 1.3}, std::vector<unsigned int>{0, 1}));
+            }
             pdef = std::make_shared<ob::ProblemDefinition>(si);
             ob::ScopedState<> s(space), g(space);
             setXY(space.get(), s.get(), map.sx + 0.263, map.sy + 0.257, 0.3);
